@@ -509,6 +509,7 @@ func RunC10(t *testing.T, c *C10Case) *RunResult {
 	})
 	res.Steps, res.Switches = s.Steps(), s.Switches()
 	res.Schedule = s.RecordedSchedule()
+	res.SimMs = max(0, s.SimElapsed().Milliseconds()-c.ClockMs) // without the initial offset of the clock
 	// what distinguishes one case from another here is the shape of the body and how it was cut
 	shape := fmt.Sprintf("%v|%d|%d|%v|%d|%v|%d|%v|%d|%s", c.NoFinalNL, c.TruncateAt, c.ErrorAt, c.Gzip, c.MaxDocSize, c.StoreFails, c.Par, c.ParFailFirst, s.InterleavingHash(), c.Prelude)
 	for _, l := range c.Lines {
